@@ -478,14 +478,18 @@ _orig_bytes_ctor = None
 
 def _bytes_ctor(*a):
     ret = _orig_bytes_ctor(*a)
-    check = False
+    sym = None
     with NoTracing():
+        # (tracing off: type()/isinstance() tell the truth about symbolic values here)
         if len(a) == 1 and isinstance(ret, SymbolicBytes) and not isinstance(a[0], BytesLike):
-            check = True
-            pts = list(ret.inner) if isinstance(ret.inner, (list, tuple)) else None
-    if check and pts is not None:
-        bad = _any(((x < 0) | (x > 255)) for x in pts if not (type(x) is int and 0 <= x <= 255))
-        if bool(bad):
+            inner = ret.inner
+            if isinstance(inner, (list, tuple)):
+                for x in inner:
+                    if type(x) is int and not 0 <= x <= 255:
+                        raise ValueError("bytes must be in range(0, 256)")
+                sym = [x for x in inner if type(x) is not int]
+    if sym:
+        if bool(_any(((x < 0) | (x > 255)) for x in sym)):
             raise ValueError("bytes must be in range(0, 256)")
     return ret
 
